@@ -30,17 +30,19 @@ FEAT = {"inline": False, "init": True, "unused": True, "func": True, "func_in_bo
 
 
 # ------------------------------------------------------------------ (a) structure of the real build
-def extract_fgraph(spec):
+def extract_fgraph(spec, io=None):
     """-> (FGraph json, real outcome, imports records).
 
-    real outcome: ('ok', [[domain, name, fp], ...]) | ('err', 'runtime') | ('skip', why)"""
+    real outcome: ('ok', [[domain, name, fp], ...]) | ('err', 'runtime') | ('skip', why)
+    `io` = (inputs, outputs) of already existing Vars (a later model of a history) instead of realising `spec`."""
     from spox import _build, _graph
     from spox._function import Function
     from spox._internal_op import Argument
     from spox._public import _temporary_renames
 
     try:
-        inputs, outputs = CF.realise(spec) if spec.get("kind") == "cf" else L.realise(spec)
+        inputs, outputs = io if io is not None else (
+            CF.realise(spec) if spec.get("kind") == "cf" else L.realise(spec))
     except Exception as e:  # noqa: BLE001 - the program itself is rejected at construction time
         return None, ("skip", f"realise: {type(e).__name__}"), []
     fps: dict[bytes, int] = {}
@@ -658,6 +660,14 @@ def run(ck: core.Check):
     # (their structure also goes through the collection / imports correspondences below)
     cf_collect = [{"mode": "collect", "spec": r["case"], "fg": r["fg"], "real": r["real"], "imports": r["imports"],
                    "status": "cf", "stats": None, "fails": []} for r in cf_results if "fg" in r]
+    # later models of the function histories: their structure taken apart over the SAME (already built) objects
+    cf_collect += [{"mode": "collect", "spec": {"fhist": r["case"], "model": rec["label"]}, "fg": rec["fg"],
+                    "real": rec["real"], "imports": rec["imports"], "status": "fhist", "stats": None, "fails": []}
+                   for r in fh_results for rec in r["recs"] if "fg" in rec]
+    unobs_fh = [c for c in cf_collect if c["status"] == "fhist" and c["real"] and c["real"][0] == "unobservable"]
+    if unobs_fh:
+        ck.broken("correspondence", "C14 function collection of later models not observable",
+                  f"{len(unobs_fh)} models; first: {unobs_fh[0]['real'][1][:300]}")
     unobs = [r for r in results if r["mode"] == "collect" and r.get("real") and r["real"][0] == "unobservable"]
     if unobs:
         ck.broken("correspondence", "C14 function collection not observable (real Builder/Function internals changed?)",
